@@ -149,6 +149,22 @@ def one(arg):
         cols = list(X.columns); rng.shuffle(cols)
         r2 = outcome(lambda: make_selector(kind, quant, qual, n_best, thresh_corr=tc).select(X[cols], y))
         rec('select#post.invariant_under_column_permutation', r2[0] == 'ok' and list(r2[1]) == sel, 'columns of X permuted (%r): %r instead of %r' % (cols, r2[1] if r2[0] == 'ok' else r2[0], sel))
+        # (3b) X listed in another row order than y (same index labels): pandas aligns on labels, the selection must not change
+        r2 = outcome(lambda: make_selector(kind, quant, qual, n_best, thresh_corr=tc).select(X.iloc[p], y))
+        rec('select#post.invariant_under_row_permutation', r2[0] == 'ok' and list(r2[1]) == sel, 'rows of X listed in another order than y (same labels): %r instead of %r' % (r2[1] if r2[0] == 'ok' else r2[0], sel), dict(reencoding='X_rows_only'))
+        # (3c) a user-supplied outlier measure in front of the association measure: negation must not change the selection
+        if kind == 'ClassificationSelector':
+            from AutoCarver.selectors.measures import zscore_measure, kruskal_measure
+            Xz = X.copy(); Xz['qskew'] = np.round(np.exp(np.array([rng.gauss(0, 1.2) for _ in range(len(X))])), 4)          # outliers on one side only
+            mk = lambda: make_selector(kind, quant + ['qskew'], [], len(quant) + 1, thresh_corr=1, quantitative_measures=[zscore_measure, kruskal_measure], thresh_zscore=0.005, thresh_kruskal=float('inf'))
+            a = outcome(lambda: mk().select(Xz, y)); Xn = Xz.copy(); Xn['qskew'] = -Xn['qskew']; b = outcome(lambda: mk().select(Xn, y))
+            rec('select#post.invariant_under_quantitative_negation', a[0] == b[0] and (a[0] != 'ok' or list(a[1]) == list(b[1])), 'user measures [zscore, kruskal]: %r vs %r after negating qskew' % (a[1] if a[0] == 'ok' else a[0], b[1] if b[0] == 'ok' else b[0]),
+                dict(reencoding='negated', feature='qskew', default_measures=False))
+        # (4b) a qualitative exact copy of a binary / multiclass target is returned
+        if kind == 'ClassificationSelector':
+            X2 = X.copy(); X2['ctarget'] = y.map(lambda v: 'cls_%s' % v)
+            r2 = outcome(lambda: make_selector(kind, quant, qual + ['ctarget'], n_best, thresh_corr=tc).select(X2, y))
+            rec('select#post.copy_of_target_is_returned', r2[0] == 'ok' and 'ctarget' in list(r2[1]), '%s: a qualitative copy of the %s target gives %r' % (kind, target, r2[1] if r2[0] == 'ok' else r2[0]), dict(feature='ctarget', what='qualitative_copy_of_target', dtype='str'))
         # (4) an exact copy / a strictly monotone image of the target is returned
         if target != 'multiclass':
             for name, col in (('copy_of_target', y.astype(float)), ('monotone_image_of_target', np.exp(y.astype(float) / (abs(y).max() + 1)) * 3 + 1)):
